@@ -482,7 +482,7 @@ async def execute(fam, events: list[dict], *, final_reads: int = 2, verbose: boo
 
     def record(base: dict) -> None:
         ev = {"k": "", "code": 0, "form": "", "cs": [], "vs": [], "life": 0, "t": now, "c": 0, "a": 0,
-              "obs": 0, "slots": slots(), "exp": [exp_flag(m) for m in msgs], "mcs": [], "mvs": []}
+              "obs": 0, "slots": slots(), "exp": [exp_flag(m) for m in msgs], "mcs": [], "mvs": [], "mlife": 0}
         ev.update(base)
         rec.append(ev)
         if verbose:
@@ -543,9 +543,13 @@ async def execute(fam, events: list[dict], *, final_reads: int = 2, verbose: boo
                         merged = dict(zip(prev_rx.get("_mcs", prev_rx["cs"]), prev_rx.get("_mvs", prev_rx["vs"])))
                         merged.update(zip(e["cs"], e["vs"]))
                         e["_mcs"], e["_mvs"] = sorted(merged), [merged[c] for c in sorted(merged)]
+                    # the lifetime the merged message must have: that of the array it continues (a message's lifetime
+                    # is fixed by its kind, and the library says this one is an array)
+                    mlife = prev_rx.get("_life", 0) if merged else 0
                     record({"k": "rx", "code": e["code"], "form": e["form"], "cs": e["cs"], "vs": e["vs"],
-                            "life": life_ms(m), "mcs": sorted(merged), "mvs": [merged[c] for c in sorted(merged)]})
-                    prev_rx = dict(e, form="A") if merged else e
+                            "life": life_ms(m), "mcs": sorted(merged), "mvs": [merged[c] for c in sorted(merged)],
+                            "mlife": mlife})
+                    prev_rx = dict(e, form="A", _life=mlife) if merged else dict(e, _life=life_ms(m))
                 else:
                     record({"k": "other"})
                     prev_rx = None
